@@ -102,6 +102,9 @@ def judge(s, xsd, doc, st, label, tns, faulty_doc=None):
             pre = lambda c: ('p:' + c.tag.split('}')[1]) if c.tag.startswith('{') else c.tag
             forms['prefixed'] = '/' + '/'.join(pre(c) for c in chain)
             forms['prefixed_pos'] = '/' + '/'.join(pos_step(pm, c, pre) for c in chain)
+            if all(c.tag.startswith('{') for c in chain):
+                # unprefixed steps under a default namespace given in the namespaces map
+                forms['defaultns'] = '/' + '/'.join(c.tag.split('}')[1] for c in chain)
         ambiguous_name = len(decl_by_name.get(e.tag, ())) > 1
         g = gov.get(e)
         for fname, path in forms.items():
@@ -111,7 +114,7 @@ def judge(s, xsd, doc, st, label, tns, faulty_doc=None):
             # (a)
             if 'pos' not in fname:
                 try:
-                    found = s.find(path, namespaces=ns)
+                    found = s.find(path, namespaces={'': tns} if fname == 'defaultns' else ns)
                 except Exception as ex:
                     out.append(rec('schema_find_raises', 'the governing declaration', type(ex).__name__ + ': ' + str(ex)[:80],
                                    {'path': path, 'form': fname}))
@@ -123,7 +126,7 @@ def judge(s, xsd, doc, st, label, tns, faulty_doc=None):
                     out.append(rec('schema_find_differs', repr(g)[:120], repr(found)[:120], {'path': path, 'form': fname}))
             # (b) partial decoding
             try:
-                part = compare.objects(s, res, path=path, namespaces=ns)
+                part = compare.objects(s, res, path=path, namespaces={'': tns} if fname == 'defaultns' else ns)
             except xmlschema.XMLSchemaException as ex:
                 out.append(rec('partial_decode_raises', 'data of the selected part', type(ex).__name__ + ': ' + str(ex)[:100],
                                {'path': path, 'form': fname}))
@@ -282,6 +285,14 @@ def judge_idc_part(places, kind, shape, st):
     return out
 
 
+DEFNS_XSD = ('<schema xmlns="http://www.w3.org/2001/XMLSchema"><element name="order"><complexType><sequence>'
+             '<element name="item" maxOccurs="unbounded"><complexType><sequence><element name="qty" type="int"/>'
+             '<element name="note" type="string" minOccurs="0"/></sequence><attribute name="id" type="int"/></complexType>'
+             '</element><element name="total" type="decimal"/></sequence></complexType></element></schema>')
+DEFNS_DOC = ('<order><item id="1"><qty>2</qty><note>n</note></item><item id="2"><qty>3</qty></item><total>5.0</total></order>')
+DEFNS_BAD = ('<order><item id="1"><qty>x</qty><note>n</note></item><item id="y"><qty>3</qty></item><total>5.0</total></order>')
+
+
 def shards(tier, seed):
     return [('dg', k, tier, seed) for k in range(15)] + [('corpus',), ('idcpart', tier, seed)]
 
@@ -296,7 +307,13 @@ def run_shard(desc):
             doc = open(xml).read()
             for r in judge(s, xsd, doc, st, 'corpus', s.target_namespace):
                 core.report(st, PROPERTY, r)
-        st.sample({'corpus': ['vehicles', 'collection']})
+        # a schema DOCUMENT written with the XSD namespace as default namespace (no xs: prefix), no target namespace:
+        # the schema's own namespace map must not leak into the lookup of instance paths (namespaces={})
+        for ver, cls in (('1.0', xmlschema.XMLSchema10), ('1.1', xmlschema.XMLSchema11)):
+            s = cls(DEFNS_XSD)
+            for r in judge(s, DEFNS_XSD, DEFNS_DOC, st, 'default-namespace schema document', '', DEFNS_BAD):
+                core.report(st, PROPERTY, r)
+        st.sample({'corpus': ['vehicles', 'collection', 'schema document with xmlns="http://www.w3.org/2001/XMLSchema"']})
         return st
     if desc[0] == 'idcpart':
         _, tier, seed = desc
